@@ -338,6 +338,111 @@ def build_special_tags(env, reps):
     return cw
 
 
+def reject_storm(env):
+    """2^32 + 16 refused deliveries on ONE receiver (a 3-byte input is refused before any cryptography, ~10 ns each), then the
+    genuine next message: a 32-bit tally of failures that latches or wraps shows here and nowhere below 2^32."""
+    g = gen.G(env.rnd)
+    cw = cl.CaseW()
+    from ref import aead as refaead
+    for i, aead in enumerate((1, 3)):
+        s = cw.session(0x0020, 1, aead, sid="rs%d" % i)
+        key, bn, es = g.raw(refaead.params(aead)[0]), g.raw(12), g.raw(32)
+        s.call("raw_s", key=key, bn=bn, es=es, out="S")
+        s.call("raw_r", key=key, bn=bn, es=es, out="R")
+        s.call("seal", ctx="S", api="inplace", pt="0a0b0c", aad="-", out="m")
+        s.call("open_many", ctx="R", n=(1 << 32) + 16, ct="010203", aad="-")
+        s.call("open", ctx="R", api="inplace", ct="$m.ct", tag="$m.tag", aad="-", expect="ok")
+    res = env.drive("reject_storm", cw.text(), build="fast", timeout=7200)
+    env.require_complete(res, "reject_storm")
+    for ss in res.sessions:
+        for o in ss.ops:
+            if o.op == "open_many":
+                env.count("evaluations", 1)
+                if o.ret is None or not o.ok():
+                    env.violation("C05:reject_storm:%s" % o.outcome(), "2^32+16 refused deliveries: %s" % o.outcome(), case_text=ss.case_text(o.id), workload="mock_panics")
+                elif o.ret.get("open_error") != str((1 << 32) + 16) or (o.ret.get("seq"), o.ret.get("ovf")) != ("0", "0"):
+                    env.violation("C05:reject_storm:verdicts", "of 2^32+16 deliveries of a 3-byte input %s were answered OpenError, %s MessageLimitReached, %s otherwise, %s accepted; state afterwards (seq, overflowed) = (%s, %s)" % (
+                        o.ret.get("open_error"), o.ret.get("limit"), o.ret.get("other"), o.ret.get("accepted"), o.ret.get("seq"), o.ret.get("ovf")), case_text=ss.case_text(o.id), workload="mock_panics")
+                else:
+                    env.extra_cov["longest_run_of_refused_deliveries_thorough"] = (1 << 32) + 16
+            elif o.op == "open" and o.args.get("expect") == "ok":
+                env.count("evaluations", 1)
+                if not o.ok():
+                    env.violation("C05:rejected_next:after_2^32_refusals:%s" % o.outcome(), "the genuine next message is refused (%s) after 2^32+16 refused deliveries" % o.outcome(), case_text=ss.case_text(o.id), workload="mock_panics")
+                else:
+                    env.seen(("reject_storm", ss.ids[2]))
+
+
+def build_mock_panics(env, reps):
+    """A user-supplied AEAD may panic (mock AEADs of harness/src/probe.rs).  A panic that unwinds out of open() and is
+    caught by the application is a delivery that was not accepted: the receiver must still accept exactly the message of
+    its current position afterwards, also at the last sequence number."""
+    g = gen.G(env.rnd)
+    rnd = env.rnd
+    cw = cl.CaseW()
+    for r in range(reps):
+        aead = (0x7777, 0x7778, 0x7779, 0x777A)[r % 4]
+        nn = {0x7777: 12, 0x7778: 24, 0x7779: 8, 0x777A: 13}[aead]
+        kdf = [1, 3][r % 2]
+        s = cw.session(gen.KEMS[r % 4], kdf, aead, sid="mp%d" % r)
+        key, bn, es = g.raw(32), g.raw(nn), g.raw({1: 32, 3: 64}[kdf])
+        s.call("raw_s", key=key, bn=bn, es=es, out="S")
+        s.call("raw_r", key=key, bn=bn, es=es, out="R")
+        for p in (0, rnd.randrange(1, 1 << 40), M64 - 1):
+            s.call("set_seq", ctx="S", seq=p)
+            s.call("set_seq", ctx="R", seq=p)
+            for j in range(2):
+                if p + j > M64:
+                    break
+                s.call("seal", ctx="S", api="inplace", pt=g.rbytes(5), aad="aa", out="m", pos=p + j)
+                npanic = rnd.choice([1, 1, 2])
+                s.call("probe_ctl", panic_open=npanic)
+                for _ in range(npanic):
+                    api = rnd.choice(["alloc", "inplace"])
+                    if api == "alloc":
+                        s.call("open", ctx="R", api="alloc", ct="$m.full", aad="aa", expect="panic")
+                    else:
+                        s.call("open", ctx="R", api="inplace", ct="$m.ct", tag="$m.tag", aad="aa", expect="panic")
+                s.call("probe_ctl", panic_open=0)
+                s.call("state", ctx="R", expect_seq=p + j)
+                s.call("open", ctx="R", api="inplace", ct="$m.ct", tag="$m.tag", aad="aa", expect="ok")
+                s.call("open", ctx="R", api="inplace", ct="$m.ct", tag="$m.tag", aad="aa", expect="replay")
+    return cw
+
+
+def monitor_mock(sess, extra):
+    r = fw.MonResult()
+    for op in sess.ops:
+        if op.ret is None:
+            r.violation("C05:noreturn:%s" % op.op, "%s never returned" % op.id, sess, op)
+            break
+        exp = op.args.get("expect")
+        if op.op == "state" and "expect_seq" in op.args and "seq" in op.ret:
+            if (op.ret["seq"], op.ret.get("ovf")) != (op.args["expect_seq"], "0"):
+                r.violation("C05:state_after_aead_panic", "after a panic inside the AEAD's decrypt (caught by the caller) the receiver is at (seq, overflowed) = (%s, %s); nothing was opened, it must still be at (%s, 0)" % (
+                    op.ret["seq"], op.ret.get("ovf"), op.args["expect_seq"]), sess, op)
+            continue
+        if op.op != "open" or exp is None:
+            continue
+        r.counts["evaluations"] += 1
+        if exp == "panic":
+            if not op.panic():
+                r.violation("C05:aead_panic_swallowed", "the AEAD panicked in decrypt but open returned %s" % op.outcome(), sess, op)
+            else:
+                r.counts["aead_panics_driven"] += 1
+        elif exp == "ok":
+            if not op.ok():
+                r.violation("C05:rejected_next_after_aead_panic:%s" % op.outcome(), "the genuine message of the receiver's position is refused (%s) after an earlier delivery of it ended in a panic inside the AEAD" % op.outcome(), sess, op)
+            else:
+                r.distinct.add((sess.ids[2], "accepted_after_panic"))
+        elif exp == "replay":
+            last = sess.ops and op.args.get("ct")
+            want = "MessageLimitReached" if False else None
+            if op.ok():
+                r.violation("C05:accepted:replay_after_panic", "a replay was accepted", sess, op)
+    return r
+
+
 CLONE_PROBE = """// generated by props/c05.py: the crate's receiver context implements Clone - a copy must be in exactly the state of
 // the original (same position, same exhaustion latch) and from then on behave like it
 use hpke::{aead::{AeadCtxR, AeadCtxS, AeadTag, AesGcm128}, kdf::HkdfSha256, kem::X25519HkdfSha256, Deserializable, Serializable};
@@ -454,7 +559,7 @@ def build_foreign(env):
     return cw
 
 
-MONITORS = {"histories": monitor, "longrun": monitor, "foreign": monitor, "special_tags": monitor}
+MONITORS = {"mock_panics": monitor_mock, "histories": monitor, "longrun": monitor, "foreign": monitor, "special_tags": monitor}
 
 
 def run(env):
@@ -468,6 +573,10 @@ def run(env):
     env.require_complete(res_f, "histories/fast")
     env.pmap(monitor, res_f.sessions, workload="histories")
     env.extra_cov["histories"] = mr.counts["histories"]
+    res5 = env.drive("mock_panics", build_mock_panics(env, env.pick(8, 60)).text())
+    env.require_complete(res5, "mock_panics")
+    mr5 = env.pmap(monitor_mock, res5.sessions, workload="mock_panics")
+    env.extra_cov["aead_panics_inside_open"] = mr5.counts["aead_panics_driven"]
     clone_probe(env)
     res4 = env.drive("special_tags", build_special_tags(env, env.pick(2, 12)).text())
     env.require_complete(res4, "special_tags")
@@ -480,6 +589,7 @@ def run(env):
     env.pmap(monitor, res2.sessions, workload="longrun")
     env.extra_cov["longest_run_of_rejected_deliveries"] = env.pick(66000, 140000)
     if not env.quick():
+        reject_storm(env)
         ftext = build_foreign(env).text()
         foreign = {}
         # (target, cargo features): conjunctions of target and feature set select code too (e.g. a 32-bit no-alloc path)
